@@ -188,17 +188,24 @@ def _ref_env(gen):
     return table
 
 
-def make_dec_view(cls, dialect):
+def _genf(dialect):
+    if callable(dialect):
+        return dialect
+    d = DIALECTS[dialect]
+    return lambda: ref.RefGen(native=d["native"], no_copy=d["no_copy"])
+
+
+def make_dec_view(cls, dialect, hooks=None):
     """view factory for g1.verify_from_dict: conv_f = REF_DEC(annotation)"""
     import typing_extensions
 
     hints = typing_extensions.get_type_hints(cls, include_extras=True)
-    d = DIALECTS[dialect]
+    genf = _genf(dialect)
 
     def factory(eng, hyps):
         out = []
         for fv in g1.schema_view(cls):
-            gen = ref.RefGen(native=d["native"], no_copy=d["no_copy"])
+            gen = genf()
             t = hints[fv.name]
             # field level: nullable fields get None for None (FROM_SPEC), so reference the inner type
             inner = g1._strip_annotated(t)[0]
@@ -209,7 +216,7 @@ def make_dec_view(cls, dialect):
                 inner = rest[0] if len(rest) == 1 else inner
             src = gen.dec(inner, "x")
             table = _ref_env(gen)
-            sx = pysym.Executor(eng, gen.ns)
+            sx = pysym.Executor(eng, gen.ns, hooks=hooks or {})
             sx.inline = table
             tree = ast.parse(src, mode="eval").body
             fv.conv_kind = "ref"
@@ -236,12 +243,12 @@ def make_enc_view(cls, dialect):
     import typing_extensions
 
     hints = typing_extensions.get_type_hints(cls, include_extras=True)
-    d = DIALECTS[dialect]
+    genf = _genf(dialect)
 
     def factory(eng, hyps, ex):
         out = []
         for fv in g2.pack_view(cls):
-            gen = ref.RefGen(native=d["native"], no_copy=d["no_copy"])
+            gen = genf()
             t = hints[fv.name]
             inner = ref.strip(t)
             if ref.is_optional(inner):
@@ -253,6 +260,7 @@ def make_enc_view(cls, dialect):
             sx.inline = table
             sx.assume_hasattr = True
             sx.nonraising = ex.nonraising
+            sx.nonraising_prefixes = ex.nonraising_prefixes
             tree = ast.parse(src, mode="eval").body
             fv.kind = "ref"
             fv.ref_src = src
